@@ -447,6 +447,63 @@ func serverRunner() (selectCases []string, shutdownArg string, doneCap string) {
 	return
 }
 
+// statuses the default status handler accepts: the condition must be a conjunction of
+// `resp.StatusCode != http.StatusX` terms; anything else yields [-1]
+var httpStatus = map[string]int{"http.StatusOK": 200, "http.StatusCreated": 201, "http.StatusAccepted": 202,
+	"http.StatusNonAuthoritativeInfo": 203, "http.StatusNoContent": 204, "http.StatusResetContent": 205,
+	"http.StatusPartialContent": 206, "http.StatusMultiStatus": 207, "http.StatusAlreadyReported": 208, "http.StatusIMUsed": 226}
+
+func acceptedStatuses() []string {
+	f := parse("transport/http/client/status.go")
+	fd := findFunc(f, "", "DefaultHTTPStatusHandler")
+	if fd == nil || fd.Body == nil {
+		return []string{"-1"}
+	}
+	var cond ast.Expr
+	for _, st := range fd.Body.List {
+		if is, ok := st.(*ast.IfStmt); ok {
+			cond = is.Cond
+			break
+		}
+	}
+	var res []string
+	bad := false
+	var walk func(e ast.Expr)
+	walk = func(e ast.Expr) {
+		switch x := e.(type) {
+		case *ast.ParenExpr:
+			walk(x.X)
+		case *ast.BinaryExpr:
+			if x.Op == token.LAND {
+				walk(x.X)
+				walk(x.Y)
+				return
+			}
+			if x.Op == token.NEQ && src(x.X) == "resp.StatusCode" {
+				if v, ok := httpStatus[src(x.Y)]; ok {
+					res = append(res, strconv.Itoa(v))
+					return
+				}
+				if bl, ok := x.Y.(*ast.BasicLit); ok && bl.Kind == token.INT {
+					res = append(res, bl.Value)
+					return
+				}
+			}
+			bad = true
+		default:
+			bad = true
+		}
+	}
+	if cond == nil {
+		return []string{"-1"}
+	}
+	walk(cond)
+	if bad || len(res) == 0 {
+		return []string{"-1"}
+	}
+	return res
+}
+
 func main() {
 	root = "/repo"
 	if len(os.Args) > 1 {
@@ -491,6 +548,7 @@ func main() {
 	pf("Definition cancel_calls_concurrent : Z := (%d)%%Z.\n", countCalls("proxy/concurrent.go", "", "NewConcurrentMiddlewareWithLogger", "cancel"))
 	pf("Definition cancel_calls_processConcurrentCall : Z := (%d)%%Z.\n", countCalls("proxy/concurrent.go", "", "processConcurrentCall", "cancel"))
 	p("")
+	pf("Definition default_status_accepted : list Z := %s.\n", coqZList(acceptedStatuses()))
 	pf("Definition default_status_cond : string := %s.\n", coqStr(firstIfCond("transport/http/client/status.go", "", "DefaultHTTPStatusHandler")))
 	pf("Definition hdr_complete_name : string := %s.\n", coqStr(unq(declValue("transport/http/server/server.go", "CompleteResponseHeaderName"))))
 	pf("Definition hdr_complete_true : string := %s.\n", coqStr(unq(declValue("transport/http/server/server.go", "HeaderCompleteResponseValue"))))
